@@ -11,6 +11,16 @@ for line in open(os.path.join(VERIF, 'known_findings.txt')):
     elif line.startswith('open:'):
         mo = re.match(r'open:\s+property=(C\d+)', line)
         opened[mo.group(1)] += 1
+# group per (property, commit): C18 has one fixed: line per bucket
+grouped = collections.OrderedDict()
+for (p_, c, t) in fixed:
+    t = re.sub(r'\s*\(replay/[^)]*\)\s*$', '', t)
+    mo = re.match(r'(.*?)\s*\[bucket (.*?)\]\s*$', t)
+    text, bucket = (mo.group(1), mo.group(2)) if mo else (t, None)
+    g = grouped.setdefault((p_, c), [text, []])
+    if bucket:
+        g[1].append(bucket)
+fixed = [(k[0], k[1], v[0] + ((' (%d buckets: %s)' % (len(v[1]), ', '.join('`%s`' % b for b in v[1][:6]) + (' ...' if len(v[1]) > 6 else ''))) if v[1] else '')) for k, v in grouped.items()]
 print('| # | Prop | /repo commit | What failed on the unchanged tree |')
 print('|---|------|--------------|-----------------------------------|')
 for i, (p, c, t) in enumerate(fixed, 1):
